@@ -28,7 +28,7 @@ ASSUMPTIONS = [
     'chord tolerance 1e-10 + 2e-14*R/min(dz) relative (cancellation in r_k^2-r_t^2); depth and optical depth rtol 1e-9',
     'RJUP=71492 km, RSUN=695700 km, k_B=1.380649e-23 typed in',
 ]
-REQUIRED = {'live-update:T': 0.03, 'live-update:planet_mass': 0.03, 'live-update:abundance': 0.03, 'method:new': 0.3, 'method:legacy': 0.3, 'regime:mixed': 0.15, 'regime:saturated-everywhere': 0.02,
+REQUIRED = {'live-update:T': 0.02, 'live-update:planet_mass': 0.03, 'live-update:abundance': 0.03, 'method:new': 0.3, 'method:legacy': 0.3, 'regime:mixed': 0.15, 'regime:saturated-everywhere': 0.02,
             'regime:transparent': 0.05, 'has-extras': 0.3}
 
 RSUN = 695700000.0
